@@ -9,8 +9,9 @@ def validate(records, name="bytes", workers=None):
     """records: [{id, kind: 'response'|'any', bytes: b'...', reqver: int}] -> ({id: [fails]}, TLCResult)."""
     path = os.path.join(common.scratch(), "%s_%d.json" % (name, os.getpid()))
     with open(path, "w") as f:
+        noprim = {"tag": 0, "typ": 0, "neg": False, "mag": []}
         json.dump([{"id": r["id"], "kind": r.get("kind", "any"), "bytes": list(r["bytes"]),
-                    "reqver": r.get("reqver", -1)} for r in records], f)
+                    "reqver": r.get("reqver", -1), "prim": r.get("prim", noprim)} for r in records], f)
     cfg = tlc.write_cfg("TraceTTLV_%s.cfg" % name, "SPECIFICATION Spec\nCHECK_DEADLOCK FALSE\n")
     res = tlc.run("TraceTTLV", cfg, workers=workers, env={"TRACE_FILE": path}, timeout=3600, heap="12g")
     if res.distinct != 2 * len(records):
